@@ -24,6 +24,9 @@ func init() {
 }
 
 func runC04(c *eng.Ctx, tier string) {
+	if tier == "thorough" {
+		defer thoroughC04(c)
+	}
 	k := loadKV(c)
 	if k == nil {
 		return
